@@ -170,12 +170,12 @@ impl<Req: VClone, Res, E: VClone> Hedge<Req, Res, E> {
             forall|i: int| 0 <= i < final(tr).reqs.len() ==> final(tr).reqs[i] == req,   // #every_attempt_carries_the_request [C12,C20]
             result matches Ok(v) ==> (final(tr).last_recv matches Some(m) && m.1 == Ok::<Res, E>(v)),   // #resolves_with_a_successful_attempts_response [C12,C20]
             result matches Err(HedgeError::AllAttemptsFailed(_)) ==> final(tr).spawned == cap(old(self).config.max_hedged_attempts) && final(tr).recv_err == final(tr).spawned,   // #all_attempts_failed_only_when_every_attempt_was_started_and_has_failed [C12]
-            final(self).config == old(self).config,   // #frame
+            final(self).config == old(self).config,   // #shared_state_handles_and_configuration_are_left_untouched [C12]
     //@body Hedge::call@Service
     pub fn poll_ready(&mut self, cx: &mut Context) -> (r: Poll<Result<(), HedgeError<E>>>)
         ensures r matches Poll::Ready(Ok(_)) ==> final(self).inner.ready@,   // #ready_only_when_inner_ready [C20]
             r matches Poll::Ready(Err(e)) ==> e is Inner,   // #readiness_errors_surface_as_inner [C20]
-            final(self).config == old(self).config,   // #frame
+            final(self).config == old(self).config,   // #shared_state_handles_and_configuration_are_left_untouched [C12]
     //@body Hedge::poll_ready@Service
 }
 fn main() {}
